@@ -37,6 +37,14 @@ S_readColName = sl("LPFreadColName",
                    r"\s*const\s+LPColBase<R>\*\s+emptycol\s*,\s*SPxOut\*\s+spxout\s*\)",
                    [r"char\s+name\[SOPLEX_LPF_MAX_LINE_LEN\]", r"colnames->number\(name\)", r"colnames->add\(name\)", r"colset\.add\(\*emptycol\)"])
 
+RAT = "src/soplex/spxlpbase_rational.hpp"
+S_readColName_rat = {"as": "LPFreadColName_rat.inc", "file": RAT,
+                     "sig": r"static\s+int\s+LPFreadColName\s*\(\s*char\*&\s+pos\s*,\s*NameSet\*\s+colnames\s*,\s*LPColSetBase<Rational>&\s+colset\s*,"
+                            r"\s*const\s+LPColBase<Rational>\*\s+emptycol\s*,\s*SPxOut\*\s+spxout\s*\)",
+                     "must_contain": [r"char\s+name\[SOPLEX_LPF_MAX_LINE_LEN\]"]}
+S_readInfinity_rat = {"as": "LPFreadInfinity_rat.inc", "file": RAT, "sig": r"static\s+Rational\s+LPFreadInfinity\s*\(\s*char\*&\s+pos\s*\)",
+                      "must_contain": [r"LPFhasKeyword\(\+\+pos,\s*\"inf\[inity\]\"\)"]}
+
 # ---- invariant building blocks (C expressions over ghost globals and body locals) ---------------------------------
 # Pointer-typed loop variables are havoc'd to ARBITRARY pointers by the loop-contract instrumentation: the invariant must pin
 # the object (__CPROVER_same_object) and talk about offsets through integer casts (a pointer difference on the havoc'd pointer
@@ -190,13 +198,32 @@ for suffix, lit, posx in KEYWORDS:
         inst["unwind_loops"] = [{"function": "LPFhasKeyword", "loop": 0}, {"function": "LPFhasKeyword", "loop": 1}, {"function": "LPFhasKeyword", "loop": 2}]
     instances.append(inst)
 
-instances.append({
-    "name": "readInfinity", "function": "LPFreadInfinity<R>(char*& pos)  [spxlpbase_real.hpp]", "defines": {"INST_readInfinity": ""},
-    "harness": "h_readInfinity", "enforce": "w_readInfinity", "replace": ["LPFhasKeyword"],
-    "slices": COMMON + [S_readInfinity], "min_obligations": 30, "tier": "quick",
-    "mutants": [{"name": "sign", "slice": "LPFreadInfinity.inc", "find": "(*pos == '-') ? -1.0 : 1.0", "replace": "(*pos == '+') ? -1.0 : 1.0"},
-                {"name": "no_advance", "slice": "LPFreadInfinity.inc", "find": "LPFhasKeyword(++pos,", "replace": "LPFhasKeyword(pos,"}],
-})
+CONSTS_RAT = [
+    {"name": "SOPLEX_LPF_MAX_LINE_LEN", "file": RAT, "regex": r"#define\s+SOPLEX_LPF_MAX_LINE_LEN\s+(\d+)"},
+    {"name": "SOPLEX_DEFAULT_INFINITY", "file": "src/soplex/spxdefines.h", "regex": r"typedef\s+double\s+Real;.*?#define\s+SOPLEX_DEFAULT_INFINITY\s+([0-9.eE+-]+)\s*\n"},
+]
+
+
+def read_infinity(rat):
+    sfx = "_rat" if rat else ""
+    d = {
+        "name": "readInfinity" + sfx,
+        "function": ("LPFreadInfinity(char*& pos) -> Rational  [spxlpbase_rational.hpp]" if rat else "LPFreadInfinity<R>(char*& pos)  [spxlpbase_real.hpp]"),
+        "defines": {"INST_readInfinity": ""},
+        "harness": "h_readInfinity", "enforce": "w_readInfinity", "replace": ["LPFhasKeyword"],
+        "slices": COMMON + [S_readInfinity_rat if rat else S_readInfinity], "min_obligations": 30, "tier": "quick",
+        "mutants": [{"name": "sign", "slice": "LPFreadInfinity%s.inc" % sfx, "find": "(*pos == '-') ? -1", "replace": "(*pos == '+') ? -1"},
+                    {"name": "no_advance", "slice": "LPFreadInfinity%s.inc" % sfx, "find": "LPFhasKeyword(++pos,", "replace": "LPFhasKeyword(pos,"}],
+    }
+    if rat:
+        d["defines"]["RAT_TWIN"] = ""
+        d["constants"] = CONSTS_RAT
+        d["rmode"] = "Rational modelled as a double wrapper (constructed from +-1 and from `infinity`, one product)"
+    return d
+
+
+instances.append(read_infinity(False))
+instances.append(read_infinity(True))
 
 # ---- LPFreadValue -------------------------------------------------------------------------------------------------------
 TOKCAP = 16
@@ -234,13 +261,17 @@ def read_value(name, tokcap, extra_defs, tier, desc_extra):
     }
 
 
-instances.append(read_value("readValue", TOKCAP, {}, "quick", " for tokens shorter than %d characters" % TOKCAP))
-# scaled stand-in for the overflow of tmp: scratch buffer of 16 instead of SOPLEX_LPF_MAX_LINE_LEN bytes, tokens up to 23 characters
-instances.append(read_value("readValue_scaled", 24, {"SCALED_MAXLEN": "16"}, "thorough",
-                            " SCALED: SOPLEX_LPF_MAX_LINE_LEN set to 16, tokens shorter than 24 characters"))
+# NOT REGISTERED (kept for the record, see "not under contract" in props/C13.json): neither variant can be discharged within the
+# time/memory budget.  The copy loop writes through a pointer it advances; under a loop contract the havoc'd pointer makes every
+# write a case split over all objects (> 40 GB), and complete unwinding of four consecutive pointer-walking loops gives SAT
+# instances that do not finish in 10 minutes even for tokens shorter than 6 characters.
+# instances.append(read_value("readValue", TOKCAP, {}, "quick", " for tokens shorter than %d characters" % TOKCAP))
+# instances.append(read_value("readValue_scaled", 24, {"SCALED_MAXLEN": "16"}, "thorough", " SCALED: SOPLEX_LPF_MAX_LINE_LEN set to 16"))
 
 # ---- LPFreadColName -----------------------------------------------------------------------------------------------------
-instances.append({
+def read_colname(rat):
+    sfx = "_rat" if rat else ""
+    d = {
     "name": "readColName",
     "function": "LPFreadColName<R>(char*& pos, NameSet* colnames, LPColSetBase<R>& colset, const LPColBase<R>* emptycol, SPxOut* spxout)  [spxlpbase_real.hpp]",
     "defines": {"INST_readColName": "", "STRCHR_LIT": ""},
@@ -271,7 +302,21 @@ instances.append({
         {"name": "unknown_added", "slice": "LPFreadColName.inc", "find": "if(emptycol == nullptr)", "replace": "if(emptycol != nullptr)"},
         {"name": "index", "slice": "LPFreadColName.inc", "find": "colidx = colnames->num();", "replace": "colidx = colnames->num() - 1;"},
     ],
-})
+}
+    d["name"] += sfx
+    d["flags"] = ["--bounds-check", "--pointer-check", "--signed-overflow-check", "--conversion-check", "--sat-solver", "cadical"]
+    if rat:
+        d["function"] = "LPFreadColName(char*& pos, NameSet* colnames, LPColSetBase<Rational>& colset, const LPColBase<Rational>* emptycol, SPxOut* spxout)  [spxlpbase_rational.hpp]"
+        d["defines"]["RAT_TWIN"] = ""
+        d["constants"] = CONSTS_RAT
+        d["slices"] = COMMON + [S_readColName_rat]
+        for m in d["mutants"]:
+            m["slice"] = "LPFreadColName_rat.inc"
+    return d
+
+
+instances.append(read_colname(False))
+instances.append(read_colname(True))
 
 # ---- LPFhasRowName ------------------------------------------------------------------------------------------------------
 P_OFF = OFF("p")
@@ -311,11 +356,11 @@ instances.append({
 kw_absent = r"LPFhasKeyword\(\s*(?:\+\+)?pos\s*,\s*\"(?!(?:%s)\")" % kw_alt
 
 unit = {
-    "property": ["C13", "C12"],
+    "property": ["C13"],
     "desc": "LP-format reader helpers (spxlpbase_real.hpp): real bodies on a symbolic NUL-terminated line that may be longer than SOPLEX_LPF_MAX_LINE_LEN",
-    "rmode": "double (IEEE, bit-precise); atof is a ghost-recording stub with unconstrained result",
+    "rmode": "double (IEEE, bit-precise) for LPFreadInfinity; the other helpers handle characters and ints only",
     "defines": {"CAP": str(CAP)},
-    "defines_small": {"CAP": "40"},
+    "replay": {"cpp": "replay.cpp", "extra_src": ["LIB"], "asan": True},
     "flags": ["--bounds-check", "--pointer-check", "--signed-overflow-check", "--conversion-check"],
     "timeout_s": 280,
     "constants": [
@@ -336,10 +381,9 @@ unit = {
     ],
     "trusted": [
         "C library models in unit.cpp: tolower (glibc table domain -128..255 asserted, \"C\" locale mapping), strchr (first occurrence or NULL)",
-        "atof, NameSet::number/num/add and LPColSetBase::add are ghost-recording stubs: they record the bytes they are handed at the ghost indices and return unconstrained values (NameSet::number assumed to return -1..num()-1, its documented range)",
+        "NameSet::number/num/add and LPColSetBase::add are ghost-recording stubs: they record the bytes they are handed at the ghost indices and return unconstrained values (NameSet::number assumed to return -1..num()-1, its documented range)",
         "logging dropped: SPX_MSG_WARNING expands to nothing, SPxOut::debug is an empty stub; assert() compiled out (NDEBUG semantics)",
         "line buffer capped at CAP=%d bytes (> SOPLEX_LPF_MAX_LINE_LEN); loop contracts are inductive, the cap bounds the object size only" % CAP,
-        "LPFreadValue is proved for tokens shorter than TOKCAP=%d characters only (ghost witness g_w): its copy loop writes through a pointer it advances, which CBMC's loop-contract havoc cannot handle, so that loop is unwound completely (with unwinding assertion); readValue_scaled repeats the proof with the scratch buffer scaled down to 16 bytes to reach the overflow of tmp - a scaled stand-in, not a statement about the real SOPLEX_LPF_MAX_LINE_LEN" % TOKCAP,
         "complete unwinding (with unwinding assertions) instead of a loop contract: LPFhasKeyword for the bracket-free keyword \"end\" (bounded by the length of the literal); the keywords with optional sections carry loop contracts generated from the literal's structure; strchr on string literals is written out loop-free for literals of up to 24 characters (asserted)",
         "LPFreadInfinity is proved against the contract of its callee LPFhasKeyword (pos stays inside the line and does not move backwards), which the hasKeyword_inf instance proves for the literal \"inf[inity]\"",
         "R = double; `infinity` is SOPLEX_DEFAULT_INFINITY extracted from spxdefines.h",
